@@ -312,6 +312,12 @@ impl PwOps for Poly6 { m_scale!(); m_scale_assign!(); m_neg!(); m_translate!(); 
 impl PwOps for Poly7 { m_scale!(); m_scale_assign!(); m_neg!(); m_translate!(); m_deriv!(); m_integ!(); b_common!(); b_scale!(); b_scale_assign!(); b_neg!(); b_add!(); b_deriv!(); b_integ!(); }
 impl PwOps for Poly8 { m_scale!(); m_scale_assign!(); m_neg!(); m_translate!(); m_deriv!(); b_common!(); b_scale!(); b_scale_assign!(); b_neg!(); b_add!(); b_deriv!(); }
 impl PwOps for PolyN { m_translate!(); b_common!(); }
+impl PwOps for UserPiece {
+    m_translate!();
+    fn bat_common(_f: &Piecewise<Self>, _x: f64, _c: f64) -> u64 {
+        0
+    }
+}
 impl PwOps for Piecewise<Poly0> {
     m_translate!();
     m_scale_assign!();
@@ -352,10 +358,10 @@ impl PwOps for IntOfLogPoly4 {
 }
 
 pub fn supports_scale(k: Kind) -> bool {
-    !matches!(k, Kind::N | Kind::W)
+    !matches!(k, Kind::N | Kind::W | Kind::U)
 }
 pub fn supports_scale_assign(k: Kind) -> bool {
-    !matches!(k, Kind::N | Kind::Q)
+    !matches!(k, Kind::N | Kind::Q | Kind::U)
 }
 pub fn supports_neg(k: Kind) -> bool {
     matches!(k, Kind::P(_) | Kind::I(_) | Kind::Q)
@@ -838,6 +844,16 @@ pub fn gen_coef(rng: &mut Rng) -> f64 {
 pub fn gen_coefs(rng: &mut Rng, kind: Kind, i: usize) -> Vec<f64> {
     match kind {
         Kind::P(0) => vec![(i + 1) as f64],
+        Kind::U => {
+            // rejects +inf, -inf, 0.0 or a small integer (often a breakpoint)
+            let reject = match rng.below(5) {
+                0 => f64::INFINITY,
+                1 => f64::NEG_INFINITY,
+                2 => 0.0,
+                _ => rng.range(-3, 6) as f64,
+            };
+            vec![(i + 1) as f64, reject]
+        }
         Kind::W => {
             // inner function: two constant pieces around an inner breakpoint
             let e0 = gen_coef(rng);
